@@ -175,14 +175,14 @@ class get_expr_end_visitor(NodeVisitor):
 
     def visit_Constant(self, node):
         # type: (Constant) -> None
-        self.last_loc = node.lineno, node.col_offset + 1
+        self.last_loc = max(self.last_loc, (node.lineno, node.col_offset + 1))
 
     def __getattr__(self, name):
         # type: (str) -> t.Callable[[AST], None]
         def inner(node):
             # type: (AST) -> None
             try:
-                self.last_loc = node.lineno, node.col_offset + 1
+                self.last_loc = max(self.last_loc, (node.lineno, node.col_offset + 1))
             except AttributeError:
                 pass
             self.generic_visit(node)
